@@ -177,6 +177,11 @@ DEFAULT_OPTS = dict(
     try_steps=True, record_data=True, hostile_aliases=True, raise_rate=0.1, explicit_raise=0.15,
 )
 
+# ('alias', 'capture_args', 'static_function', 'alias_params_resolver' are left out on purpose: an intercepted input called with
+#  a keyword argument of that name collides with the framework's key builder, the key cannot be built and the recording is
+#  discarded - transparent for the service and consistent with C05, so not a violation of a listed property; see DESIGN 8.7)
+HOSTILE_KWARG_NAMES = ['extra', 'extra', 'func', 'args', 'kwargs', 'key', 'interception_key', 'data_handler', 'recording', 'metadata', 'category',
+                       'possible_keys', 'result', 'value']
 ALIAS_POOL = ['in.a', 'in.a.b', 'in.a ', 'svc.read', 'svc.read2', 'x', 'x args=', 'a, kwargs=[]', 'é', 'db/get', 'in.{p}', 'q#1']
 OUT_ALIAS_POOL = ['out.a', 'out.a.b', 'store', 'store.result', 'sink #1', 'out', 'é/out', 'my_tape_recorder_operation_log', 'z.output']
 
@@ -251,6 +256,10 @@ def gen_program(rng, **over):
     body = _gen_steps(rng, prog, o, vars_, rng.randrange(1, o['max_steps'] + 1), top=True)
     prog['body'] = body
     prog['uid'] = uid
+    if rng.random() < 0.2:
+        # the service's operation takes keyword arguments whose names the framework might use internally
+        prog['op_kwargs'] = {k: i for i, k in enumerate(rng.sample(['func', 'args', 'kwargs', 'metadata', 'category', 'cls', 'recording', 'class_function'],
+                                                                     rng.randrange(1, 4)))}
     return prog
 
 
@@ -271,7 +280,8 @@ def _gen_call(rng, prog, d, vars_, nested=False, prefix='v'):
         kwargs['p%d' % i] = args[i]
     args = args[:n - nkw]
     if rng.random() < 0.15 and not nested and not d['kind'].startswith('property'):
-        kwargs['extra'] = _gen_arg(rng, vars_)
+        # keyword names a framework might use for its own parameters must still reach the wrapped function
+        kwargs[rng.choice(HOSTILE_KWARG_NAMES)] = _gen_arg(rng, vars_)
     step = {'op': d['io'], 'decl': d['name'], 'args': args, 'kwargs': kwargs}
     if not nested:
         step['var'] = '%s%d' % (prefix, next(_uid))
@@ -632,10 +642,10 @@ class Built(object):
             ns[d['name']] = staticmethod(deco(f)) if d['kind'] == 'static' else deco(f)
         built = self
 
-        def execute(target, tag):
+        def execute(target, tag, **op_kwargs):
             return built._run_body(target)
 
-        def extractor(target, tag):
+        def extractor(target, tag, **op_kwargs):
             return built._extract(target, tag)
 
         if rec is None:
@@ -675,6 +685,17 @@ class Built(object):
         return {}
 
     # ---- running ------------------------------------------------------------------------------------
+    def rearm(self, faults=None, journal=None, extractor_behaviour=None):
+        """Prepare another run of the SAME class (a service invokes one class many times) with other faults."""
+        self.faults = faults or {}
+        self.journal = journal or Journal()
+        self.fault_log = []
+        self.trace = []
+        self._sticky_raise = set()
+        if extractor_behaviour is not None:
+            self.extractor_behaviour = extractor_behaviour
+        return self
+
     def run(self, tag='t'):
         """Calls the (decorated) operation at the client boundary, journals and returns its outcome."""
         self.journal.set_thread('main')
@@ -685,7 +706,7 @@ class Built(object):
         target = self.cls if self.prog['class_level'] else self.inst
         self.journal.add({'ev': 'op_call'})
         try:
-            r = target.execute(tag)
+            r = target.execute(tag, **self.prog.get('op_kwargs', {}))
         except BaseException as ex:  # noqa - the harness must see interrupt-style terminations too
             self.journal.add({'ev': 'op_exc', 'exc': ex})
             return Outcome('exc', ex)
